@@ -992,7 +992,9 @@ func (r *Reader) markdownWithHeadingLevels(opts ExtractOptions, headingLevel fun
 				result.WriteString("#")
 			}
 			result.WriteString(" ")
-			result.WriteString(elem.Text)
+			// An ATX heading is one line: a line break inside the heading
+			// (<br>, or a newline of the source) would end it early
+			result.WriteString(strings.Join(strings.Fields(elem.Text), " "))
 
 		case ElementParagraph:
 			if result.Len() > 0 {
